@@ -143,6 +143,7 @@ fn four_gib_stream(rep: &Report) -> Result<(), String> {
 pub fn run(rep: &'static Report) {
     let seed = rep.seed;
     rep.set_rule("E-ENV in tiny scope with the password-mode AAD (magic): every read partition, bounded write partitions, both loops, plus mismatched key/AAD pairs; E-GRID through pass_encrypt/pass_decrypt: all ordered password pairs over the 12-word alphabet x salts, and lengths x bounded short-I/O schedules. distinct non-trivial = distinct ciphertext streams round-tripped + distinct (password, other password, salt) triples");
+    rep.rule_add("Password channels: encrypt through each of {environment, controlling terminal, stdin terminal}, decrypt through each, 8 passwords differing in blanks at their ends; a near miss is refused.");
     rep.rule_add("CLI password pairs and round trips, the latter also with KESTREL_NEW_PASSWORD holding another password.");
     rep.assume("password/plaintext values from fixed alphabets; scrypt cost bounds the public-API part (counted in evidence)");
     let big = std::thread::spawn(move || four_gib_stream(rep));
@@ -268,6 +269,7 @@ pub fn run(rep: &'static Report) {
     rep.extra("public_api_short_io_executions", json!(execs.load(Ordering::Relaxed)));
     rep.sample(json!({"kind":"pass roundtrip","L":CS+1,"password":"(empty)","schedule":"read#1 returns 1 byte, everything else default"}));
     cli_pairs(rep);
+    crate::chan::round_trips(rep, "C02");
     match big.join() {
         Ok(Ok(())) => {}
         Ok(Err(e)) => rep.violation("big/four-gib-stream", json!({"kind":"cli-rt","big":true}), e),
@@ -495,6 +497,10 @@ fn cli_pairs(rep: &Report) {
 }
 
 pub fn replay(rep: &'static Report, case: &Value) {
+    if case["kind"] == "chan" {
+        crate::chan::round_trips(rep, "C02");
+        return;
+    }
     if case["kind"] == "cli-rt" {
         println!("  re-running the CLI part of C02");
         cli_pairs(rep);
